@@ -80,9 +80,10 @@ theorem RelH.ghostLocal {s s' : St} (h : RelH P GA GG GL s s') (a : String) (v :
     have : y = a := by simpa using hc
     subst this
     rw [hP] at hy; exact absurd hy (by simp)
-  refine ⟨?_, ?_, ?_, ?_, ?_, ?_, ?_, h.ggA, h.freshA, ?_⟩
+  refine ⟨?_, ?_, ?_, ?_, ?_, ?_, ?_, ?_, h.ggA, h.freshA, ?_⟩
   · rw [out_assign]; exact h.out
   · rw [imports_assign]; exact h.imports
+  · rw [isSome_assign]; exact h.mode
   · intro y hy; rw [globals_assign_local s' a v hloc]; exact h.gget y hy
   · intro y hy; rw [isLocal_assign]; exact h.isLocal y hy
   · intro y hy hly
@@ -344,7 +345,7 @@ theorem calleeOKH_of (w : HoistW) (ft : FTab) (htab : TableOKH w ft) (k : Nat)
     | false => rfl
     | true => exact absurd ha (F.fresh a ((fnP_iff ps b a).mp hp))
   have hrel : RelH (fnP ps b) (gnames gm) (gvals gm) [] s0 s0' := by
-    refine ⟨rfl, rfl, hgg, ?_, ?_, ?_, ?_, ?_, ?_, ?_⟩
+    refine ⟨rfl, rfl, rfl, hgg, ?_, ?_, ?_, ?_, ?_, ?_, ?_⟩
     · intro x hx; rw [hloc0, hlocS]; exact F.locEq x ((fnP_iff ps b x).mp hx)
     · intro x _ _; rfl
     · intro a v hm
@@ -610,7 +611,46 @@ theorem run_hoistModule (w : HoistW) (m : Module) (h : hoistOK w m = true) (n : 
   rw [he]
   have hrel : RelH Pm (gnames w.gmod) (gvals w.gmod) [] St.init s1' := by
     have hnl : ∀ x, s1'.isLocal x = false := by intro x; unfold St.isLocal; simp [hl1]
-    refine ⟨ho, hi, hg1, ?_, ?_, ?_, ?_, ?_, ?_, ?_⟩
+    refine ⟨ho, hi, by rw [hl1]; rfl, hg1, ?_, ?_, ?_, ?_, ?_, ?_, ?_⟩
+    · intro x _; rw [hnl]; rfl
+    · intro x _ hx; simp [St.isLocal, St.init] at hx
+    · intro a v hm; exact ⟨hnl a, hg2 a v hm⟩
+    · intro a v hm; simp at hm
+    · intro a v hm; exact gvals_names _ a v hm
+    · intro a ha; simp [Pm, ha]
+    · intro a v hm; simp at hm
+  exact observe_relH _ _ (execTop_h w (collect m.body) htab n Pm hs hc _ St.init s1' hrel htop) St.init
+
+
+/-- the same under `python -O` -/
+theorem runO_hoistModule (w : HoistW) (m : Module) (h : hoistOK w m = true) (n : Nat) :
+    ObsEq (gnames w.gmod) (runO n (hoistModule w m)) (runO n m) := by
+  have htab := tableOKH_of_hoistOK w m h
+  unfold hoistOK at h
+  simp only [Bool.and_eq_true, beq_iff_eq, decide_eq_true_eq] at h
+  obtain ⟨⟨⟨⟨⟨hk, hvals⟩, hnd⟩, hfresh⟩, hdbg⟩, _⟩ := h
+  rw [List.all_eq_true] at hvals
+  let Pm : String → Bool := fun x => !(gnames w.gmod).contains x
+  have hfresh' : (reserved ++ topNames m.body).all Pm = true := hfresh
+  rw [List.all_append, Bool.and_eq_true] at hfresh'
+  have hs : StatH Pm := fun r hr => all_of_mem hfresh'.1 hr
+  have hc : Cons w.gmod (gvals w.gmod) [] := by
+    have := cons_of [] w.gmod [] (fun p hp => hvals p (by simpa using hp)) (by intro k a v hm; simp at hm)
+    simpa using this
+  have htop := topOK_dropWhile w.gmod Pm m.body (topOK_of w.gmod Pm m.body hfresh'.2 hdbg)
+  unfold runO hoistModule
+  simp only
+  rw [weave_ghosts (hoistTop w) w.proMod _ hk]
+  have hcol : collect (List.takeWhile isDocStmt m.body ++ (List.map (fun p => ghostStmt p.1 p.2) (ghostsOf w.proMod) ++
+      List.map (hoistTop w) (List.dropWhile isDocStmt m.body))) = hoistFT w (collect m.body) := by
+    rw [collect_append, collect_append, collect_docs, collect_ghosts, collect_hoistTop, collect_dropDocs]; rfl
+  rw [hcol, execL_takeWhile_doc, execL_dropWhile_doc (collect m.body) n St.init m.body]
+  obtain ⟨s1', he, ho, hi, hl1, hg1, hg2⟩ := modGhosts_run (o := true) (hoistFT w (collect m.body)) n
+    (List.map (hoistTop w) (List.dropWhile isDocStmt m.body)) (ghostsOf w.proMod) St.init rfl hvals hnd
+  rw [he]
+  have hrel : RelH Pm (gnames w.gmod) (gvals w.gmod) [] St.init s1' := by
+    have hnl : ∀ x, s1'.isLocal x = false := by intro x; unfold St.isLocal; simp [hl1]
+    refine ⟨ho, hi, by rw [hl1]; rfl, hg1, ?_, ?_, ?_, ?_, ?_, ?_, ?_⟩
     · intro x _; rw [hnl]; rfl
     · intro x _ hx; simp [St.isLocal, St.init] at hx
     · intro a v hm; exact ⟨hnl a, hg2 a v hm⟩
